@@ -843,7 +843,7 @@ func c19StraceRun(c *runner.Ctx) {
 	points := int64(0)
 	for n := loadReads + 1; n <= total; n += step {
 		for _, when := range []string{fmt.Sprintf("%d+", n), fmt.Sprintf("%d", n)} {
-			ctxTimeout := 40 * time.Second
+			ctxTimeout := 180 * time.Second
 			cmd := exec.Command("strace", append([]string{"-f", "-qq", "-e", "trace=pread64", "-e", "inject=pread64:error=EIO:when=" + when, "-o", "/dev/null", os.Args[0]}, args...)...)
 			var ob, eb bytes.Buffer
 			cmd.Stdout, cmd.Stderr = &ob, &eb
